@@ -187,6 +187,12 @@ S_SNIPPETS = [
     "impl X { fn f() { if a { fn g<T>() where T: Sized + Clone {} } } }\n",
     "fn ch() { let x = some.long().chain().of().method().calls().that().goes().on(); }\n",
     "macro_rules! mm { ($a:ident) => { fn $a() { let v = 1; } }; }\n",
+    "impl Tr for S { reuse a::b; reuse c::d { self.0 } }\ntrait Tq { reuse x::y; }\n",
+    "fn tr() { try!().z; let _ = try!(;).z(); let _ = try!(,)?; let _ = r#try!(a).b; }\n",
+    "fn md() { if a { if b { if c { macro_rules! deep { () => { 1 }; ($x:expr) => { $x + 1 }; } } } } }\n",
+    "fn cv() {\n    a(); // caf\u00e9 \u2603\n}\nfn cw() { b() /* \u00e9\u00e9 */ }\n",
+    "struct Al {\n    a: u8  , // \u00e9\u00e9\u00e9\u00e9\n\n    bb: u16, // x\n}\nfn al() { let _ = Al { a: 1  , // \u00e9\u00e9\n\n        bb: 2 }; }\n",
+    "extern \"a\\nb\" { fn f(); }\nextern \"C\" { fn g(); }\n",
 ]
 LEX_WS = ["\u0085", "\u200e", "\u200f", "\u2028", "\u2029"]      # white space for the lexer (Pattern_White_Space)
 UNI_WS = ["\u3000", "\u00a0", "\u2003", "\u1680", "\u2028", "\u2029", "\u0085"]  # Unicode White_Space
@@ -221,7 +227,8 @@ def gen_seeded(rng):
                     ("brace_style", ["AlwaysNextLine", "PreferSameLine", "SameLineWhere"]),
                     ("error_on_line_overflow", [True, False]), ("error_on_unformatted", [True, False]),
                     ("blank_lines_upper_bound", [0, 1, 4, 18446744073709551615]),
-                    ("blank_lines_lower_bound", [0, 1])):
+                    ("blank_lines_lower_bound", [0, 1]), ("use_try_shorthand", [True, True, False]),
+                    ("struct_field_align_threshold", [0, 20, 60]), ("format_macro_bodies", [True, False])):
         if rng.chance(45):
             cfg[k] = rng.choice(vals)
     return text, desc, cfg
@@ -268,7 +275,7 @@ def generate(rng, tier):
         text, desc, cfg = gen_seeded(rng)
         return {"lane": "B", "source": "seeded-constructs", "text": text, "mutations": desc or ["none"], "depth": 0, "badutf8": False,
                 "delivery": rng.choice(["root", "root", "stdin", "module"]), "config": cfg, "hashseed": rng.below(1 << 32),
-                "via": rng.choice(["file", "cli"]), "emit": rng.choice([[], ["--check"], ["--emit", "stdout"]])}
+                "via": rng.choice(["file", "cli"]), "emit": rng.choice([[], ["--check"], ["--emit", "stdout"], ["--emit", "coverage"]])}
     if rng.chance(4):
         text, desc = gen_cfg_macro(rng)
         return {"lane": "T", "text": text, "mutations": desc, "emit": rng.choice([[], ["--check"], ["--emit", "stdout"]]),
